@@ -209,7 +209,7 @@ func (n *scripted) Notify(ctx context.Context, alerts ...*alert.Alert) (bool, er
 		at.Outcome, retry, err = "unrecoverable", false, errors.New("scripted unrecoverable failure")
 	case "slow":
 		select {
-		case <-time.After(time.Duration(b.D) * time.Second):
+		case <-time.After(b.Dur()):
 			at.Outcome = "ok"
 		case <-ctx.Done():
 			at.Outcome, retry, err = "ctx", true, ctx.Err()
